@@ -303,6 +303,11 @@ def certOk (g : Grid α) (c : Cav) : Bool :=
   c.tetList.all (fun cell => (g.tets.get? cell).isSome) && c.triList.all (fun cell => (g.tris.get? cell).isSome) &&
   c.validFaces.all Face.nondeg && ledgerOkAt g c
 
+/-- every live seg carries the face id of a listed (to be removed) boundary tri that has the seg's two nodes: the
+    face ids the new boundary tris inherit are ids of tris that go away (evaluated by the run-level driver) -/
+def segIdsOk (g : Grid α) (c : Cav) : Bool :=
+  c.validSegs.all fun s => (listedTris g c).any fun t => t.id == s.id
+
 /-! ### the enlarge loops -/
 
 /-- result of a modelled C function that contains a `while (keep_growing)` loop -/
